@@ -1,13 +1,16 @@
 import Texel.Proofs.SnapF
+import Texel.Proofs.RingSize
 /-! # C05 — returned rings are well formed, correctly oriented, collapse policy respected
 
 Proved here on the functional model `snapPolygonF` (all polygons, valid or not, all configurations):
 * a tile matrix at which the whole polygon collapses is *absent* from the result, never mapped to an empty list;
 * with keep-points-and-lines, every tile matrix present without the option carries the same polygons followed by
   single-ring polygons (the collapsed parts), and nothing else changes.
-The ring-level clauses (orientation, no repeated vertex, at least three vertices) are evaluated by the exact oracle `oracleC05`
+* without the option every ring of every returned polygon has at least three vertices; with it the returned list is such polygons
+  followed by single rings of at most two vertices (`C05_at_least_three`, `C05_shape`).
+The remaining ring-level clauses (orientation, no repeated vertex) are evaluated by the exact oracle `oracleC05`
 on every implementation answer and by the `snap`/`split` correspondence; their proofs need the inside of `splitRing`
-(see DESIGN §6 C05, `C05_simple_vertices_partial`). Core-only proofs. -/
+(see DESIGN §6 C05). Core-only proofs. -/
 namespace Texel.C05
 open Texel
 
@@ -87,5 +90,29 @@ theorem C05_keep_extends (g : Grid) (hot : Nat → Quad → Bool) (rev io : Bool
   have : ¬ ((polys ++ acc1.pls.map fun pl => #[pl]).size = 0) := by
     simp only [Array.size_append]; omega
   rw [if_neg this]
+
+/-- **shape of a level**: assembled polygons whose rings all have at least three vertices, followed by the collapsed parts as single
+rings of at most two vertices (none of them without the keep option) -/
+theorem C05_shape (g : Grid) (rings : List (List Pt)) (levels : List Nat) (cfg : Config)
+    (res : List (Nat × Array Poly)) (h : snapPolygonF g rings levels cfg = .ok res) (l : Nat) (polys : Array Poly) (hm : (l, polys) ∈ res) :
+    ∃ core : Array Poly, ∃ pls : Array (Array P), polys = core ++ pls.map (fun pl => #[pl]) ∧
+      (∀ pg ∈ core, ∀ r ∈ pg, 3 ≤ r.size) ∧ (∀ pl ∈ pls, pl.size ≤ 2) ∧ (cfg.keep = false → pls = #[]) := by
+  obtain ⟨addrs, _, _, hp⟩ := snapPolygonF_mem g rings levels cfg res h l polys hm
+  obtain ⟨core, pls, h1, h2, h3, acc, hacc, hpls⟩ := processLevel_size g (hotOf g addrs) cfg l rings polys hp
+  refine ⟨core, pls, h1, h2, h3, ?_⟩
+  intro hk
+  rw [hk] at hacc
+  rw [hpls]
+  exact C05_no_keep_no_appended g (hotOf g addrs) cfg.reverse l rings acc hacc
+
+/-- **without keep-points-and-lines every returned ring has at least three vertices** (any polygon, any levels, either winding order) -/
+theorem C05_at_least_three (g : Grid) (rings : List (List Pt)) (levels : List Nat) (cfg : Config) (hk : cfg.keep = false)
+    (res : List (Nat × Array Poly)) (h : snapPolygonF g rings levels cfg = .ok res) (l : Nat) (polys : Array Poly) (hm : (l, polys) ∈ res) :
+    ∀ pg ∈ polys, ∀ r ∈ pg, 3 ≤ r.size := by
+  obtain ⟨core, pls, h1, h2, _, h4⟩ := C05_shape g rings levels cfg res h l polys hm
+  rw [h4 hk] at h1
+  simp only [Array.map_empty, Array.append_empty] at h1
+  subst h1
+  exact h2
 
 end Texel.C05
